@@ -124,11 +124,14 @@ let do_reply id ins outs =
    this very question (ID of this query, TTL possibly aged, never raised), judged by the extracted c01_ok *)
 let do_e2e id ins outs =
   match ins, outs with
-  | [proto; qh; eh], [nrep; rep] ->
+  | [proto; qh; eh; prof], [nrep; rep; saw] ->
     let q = bytes_of_token qh and exp = bytes_of_token eh in
     let pr = if proto = "udp" then UDP else TCP in
     let tag = "e2e/" ^ proto in
     if nrep <> "1" then verdict "e2e" id "spec:C01" tag (Printf.sprintf "%s replies to one well-formed query" nrep)
+    else if saw <> "-" && saw <> prof then
+      (* the answer was fetched (or cached) under another client's profile *)
+      verdict "e2e" id "spec:C11,C06,C01" tag (Printf.sprintf "a client under profile e%s was given the answer of profile e%s: reply=%s" prof saw rep)
     else (match full_bytes rep with
       | None -> verdict "e2e" id "diff" tag "reply too long to compare"
       | Some rb ->
